@@ -125,6 +125,12 @@ def enumerate_cases(tier, seed):
                 for suffix in (".v2", "", ".top"):
                     cases.append({"program": program, "input": inp, "fault": None, "prior": prior, "rng": seed,
                                   "suffix": suffix})
+    # the previous output is what this very run produces, complete or cut off after some lines (a re-run of the same
+    # command): the new file is written and the old one backed up all the same
+    for inp in (0, 1):
+        for keep in ("all", "half", "two_lines"):
+            cases.append({"program": "gen_params", "input": inp, "fault": None, "prior": "present", "rng": seed,
+                          "previous_result": keep})
     # every case whose listing index is a multiple of 3, and every fault-free case a second time, runs with the
     # directory for temporary files on another file system than the output
     extra = []
@@ -298,6 +304,14 @@ def check(spec, ctx):
         other = tempfile.mkdtemp(prefix="polyply-verif-", dir=shm)
         ctx.label("temp_dir_on_other_device")
     try:
+        if spec.get("previous_result"):
+            pre = type("Ctx", (), {"dir": ctx.dir / "pre", "label": ctx.label, "nontrivial": False})()
+            pre.dir.mkdir()
+            _check(dict(spec, prior="absent", previous_result=None), pre, None)
+            lines = (pre.dir / "out" / "result.itp").read_text().splitlines(keepends=True)
+            keep = {"all": len(lines), "half": max(1, len(lines) // 2), "two_lines": 2}[spec["previous_result"]]
+            spec = dict(spec, _sentinel="".join(lines[:keep]))
+            ctx.label("previous_output_is_this_run_s_result_" + spec["previous_result"])
         return _check(spec, ctx, other)
     finally:
         if other:
@@ -326,6 +340,8 @@ def _check(spec, ctx, other_tmp):
         gc.write_gro(target, [tuple(a) for a in ispec["coords"]["atoms"]], ispec["coords"]["box"])
         sentinel = target.read_bytes()
     elif prior != "absent":
+        if spec.get("_sentinel") is not None:
+            sentinel = spec["_sentinel"].encode()
         if prior == "empty":
             sentinel = b""
         target.write_bytes(sentinel)
